@@ -28,6 +28,7 @@ fn wake_waiters(waiters: &mut LinkedList<RecvWaitQueueEntry>) {
 }
 
 /// Internal state of the oneshot channel
+#[cfg_attr(futures_intrusive_verif, derive(Debug))]
 struct ChannelState<T> {
     /// Whether the channel had been fulfilled before
     is_fulfilled: bool,
@@ -268,6 +269,7 @@ mod if_alloc {
         #[cfg(not(futures_intrusive_verif))]
         use core::sync::atomic::{AtomicUsize, Ordering};
 
+        #[cfg_attr(futures_intrusive_verif, derive(Debug))]
         struct GenericOneshotChannelSharedState<MutexType, T>
         where
             MutexType: RawMutex,
@@ -502,6 +504,19 @@ mod if_alloc {
                     .push(self.inner.receivers.load(Ordering::SeqCst) as u64);
                 snap
             }
+
+            /// `Debug` rendering of the shared state and of the channel state
+            pub fn verif_debug(&self) -> alloc::string::String
+            where
+                MutexType: core::fmt::Debug,
+                T: core::fmt::Debug,
+            {
+                alloc::format!(
+                    "{:?} {}",
+                    *self.inner,
+                    self.inner.channel.verif_debug()
+                )
+            }
         }
 
         #[cfg(futures_intrusive_verif)]
@@ -575,6 +590,15 @@ mod verif_hooks {
                 .push(state.value.as_ref().map_or(NO_VALUE, |v| tag_of(v)));
             snap_list(&state.waiters, &mut snap, &describe_recv);
             snap
+        }
+
+        /// `Debug` rendering of the complete internal state (all fields,
+        /// including ones this hook does not know about)
+        pub fn verif_debug(&self) -> alloc::string::String
+        where
+            T: core::fmt::Debug,
+        {
+            alloc::format!("{:?}", *self.inner.lock())
         }
     }
 }
